@@ -221,6 +221,118 @@ theorem rewrite_preserves (σ) (f : Nat → Option Operands) (hf : ∀ k r, f k 
       rw [eval_logicalAnd, foldl_and_zip σ f hf]
       simp [fromBool]
 
+/-! ## what a rewriting visitor computes in general (replacements need not be equivalent) -/
+
+/-- the value a leaf contributes after rewriting: a replaced positive leaf takes the value of its
+replacement; a leaf under NOT is rebuilt from the original (`apply_logical_not` ignores the result) -/
+def evalLeafR (σ : Nat → K3) (f : Nat → Option Operands) : Leaf → K3
+  | .pos k => match f k with
+    | none => σ k
+    | some r => eval σ r
+  | .neg k => not3 (σ k)
+def evalGroupR (σ : Nat → K3) (f : Nat → Option Operands) (g : List Leaf) : K3 := g.foldr (fun l acc => or3 (evalLeafR σ f l) acc) .ff
+def evalR (σ : Nat → K3) (f : Nat → Option Operands) (p : Operands) : K3 := p.foldr (fun g acc => and3 (evalGroupR σ f g) acc) .tt
+
+theorem evalLeafR_getD (σ) (f : Nat → Option Operands) (l : Leaf) : eval σ ((visitLeaf f l).getD [[l]]) = evalLeafR σ f l := by
+  cases l with
+  | pos k =>
+    simp only [visitLeaf, evalLeafR]
+    cases hk : f k with
+    | none => simp [evalLeaf]
+    | some r => simp
+  | neg k =>
+    simp only [visitLeaf, evalLeafR]
+    cases hk : f k with
+    | none => simp [evalLeaf]
+    | some r => simp [eval_logicalNot, evalLeaf]
+
+theorem foldl_or_zipR (σ) (f : Nat → Option Operands) :
+    ∀ (g : List Leaf) (acc : K3),
+      (List.zipWith (fun o r => (r : Option Operands).getD [[o]]) g (g.map (visitLeaf f))).foldl
+          (fun a p => or3 a (eval σ p)) acc = or3 acc (evalGroupR σ f g) := by
+  intro g
+  induction g with
+  | nil => intro acc; simp [evalGroupR]
+  | cons l ls ih =>
+    intro acc
+    simp only [List.map_cons, List.zipWith_cons_cons, List.foldl_cons, ih, evalLeafR_getD]
+    simp only [evalGroupR, List.foldr_cons, or3_assoc]
+
+theorem evalGroupR_none (σ) (f : Nat → Option Operands) : ∀ (g : List Leaf), (g.map (visitLeaf f)).all Option.isNone = true →
+    evalGroupR σ f g = evalGroup σ g
+  | [], _ => rfl
+  | l :: ls, h => by
+    simp only [List.map_cons, List.all_cons, Bool.and_eq_true] at h
+    have hl : evalLeafR σ f l = evalLeaf σ l := by
+      cases l with
+      | pos k =>
+        simp only [visitLeaf] at h
+        cases hk : f k with
+        | none => simp [evalLeafR, evalLeaf, hk]
+        | some r => simp [hk] at h
+      | neg k => simp [evalLeafR, evalLeaf]
+    have := evalGroupR_none σ f ls h.2
+    simp only [evalGroupR, List.foldr_cons] at this ⊢
+    rw [hl, this]
+    rfl
+
+theorem visitOr_characterised (σ) (f : Nat → Option Operands) (g : List Leaf) :
+    eval σ ((visitOr f g).getD [g]) = evalGroupR σ f g := by
+  unfold visitOr
+  simp only []
+  split
+  · rename_i h
+    simp [evalGroupR_none σ f g h]
+  · simp only [Option.getD_some]
+    rw [eval_logicalOr, foldl_or_zipR]
+    simp [fromBool]
+
+theorem foldl_and_zipR (σ) (f : Nat → Option Operands) :
+    ∀ (p : Operands) (acc : K3),
+      (List.zipWith (fun o r => (r : Option Operands).getD [o]) p (p.map (visitOr f))).foldl
+          (fun a q => and3 a (eval σ q)) acc = and3 acc (evalR σ f p) := by
+  intro p
+  induction p with
+  | nil => intro acc; simp [evalR]
+  | cons g gs ih =>
+    intro acc
+    simp only [List.map_cons, List.zipWith_cons_cons, List.foldl_cons, ih, visitOr_characterised]
+    simp only [evalR, List.foldr_cons, and3_assoc]
+
+theorem evalR_none (σ) (f : Nat → Option Operands) : ∀ (p : Operands), (p.map (visitOr f)).all Option.isNone = true →
+    evalR σ f p = eval σ p
+  | [], _ => rfl
+  | g :: gs, h => by
+    simp only [List.map_cons, List.all_cons, Bool.and_eq_true] at h
+    have hg : evalGroupR σ f g = evalGroup σ g := by
+      have h1 := h.1
+      unfold visitOr at h1
+      simp only [] at h1
+      split at h1
+      · rename_i hh; exact evalGroupR_none σ f g hh
+      · simp at h1
+    have := evalR_none σ f gs h.2
+    simp only [evalR, List.foldr_cons] at this ⊢
+    rw [hg, this]
+    rfl
+
+/-- **What a rewriting visitor yields, for arbitrary replacements**: the original conjunction of
+disjunctions with every replaced positive leaf evaluated as its replacement (constants, other leaves,
+compound predicates alike) and every other leaf as itself. -/
+theorem rewrite_characterised (σ) (f : Nat → Option Operands) (p : Operands) : eval σ (rewrite f p) = evalR σ f p := by
+  unfold rewrite visitAnd
+  simp only []
+  split
+  · rename_i h
+    simp [evalR_none σ f p h]
+  · simp only [Option.getD_some]
+    rw [eval_logicalAnd, foldl_and_zipR]
+    simp [fromBool]
+
+/-- replacing a leaf of a disjunction by constant False leaves the other disjuncts (not True) -/
+example : rewrite (fun k => if k = 1 then some (fromBool false) else none) [[.pos 0, .pos 1]] = [[.pos 0]] := by decide
+example : rewrite (fun k => if k = 1 then some (fromBool true) else none) [[.pos 0, .pos 1], [.pos 2]] = [[.pos 2]] := by decide
+
 /-! non-vacuity -/
 example : logicalNot [[.pos 0, .pos 1], [.neg 2]] = [[.neg 0, .pos 2], [.neg 1, .pos 2]] := by decide
 example : logicalAnd [[.pos 0]] [[[]], [[.pos 1]]] = [[]] := by decide
